@@ -388,11 +388,15 @@ class C08Executor(readfile.ReadFileExecutor):
     def get_attr(self, st, base, attr, node):
         if attr in self._LIST_GROW and self._grown_list(st, base):
             return [(st, VFunc("bound", base, attr))]        # a list of unknown content: append & co. are total
+        if attr == "close" and isinstance(base, VUnk):
+            return [(st, VFunc("bound", base, attr))]        # see call_method: close() assumed total
         return super().get_attr(st, base, attr, node)
 
     def call_method(self, st, obj, name, args, kwargs, node):
         if name in self._LIST_GROW and self._grown_list(st, obj):
             return [(st, NONE)]
+        if name == "close" and not args and isinstance(obj, (VUnk, VExt)) and self.reg.method_models.get((getattr(obj, "sort", None), name)) is None:
+            return [(st, NONE)]       # ASSUMED: close() of a container / context handle is total (runs in `finally` blocks)
         return super().call_method(st, obj, name, args, kwargs, node)
 
     def compare(self, st, op, a, b, node):
@@ -498,15 +502,38 @@ def xml_axiom(f):
     return z3.Implies(HAS_ENC_ELEM(m), z3.Contains(m, sv("encryption-data")))
 
 
+def xls_loop_view(lc):
+    """(stream view, cursor term) of the record loop, found structurally (no local names fixed here): the stream is the
+    one symbolic byte string among the locals, the cursor the one integer local that the loop both tests and assigns."""
+    env = lc.st.frames[-1].env
+    seqs = [v for v in env.values() if isinstance(v, VSeq) and v.is_bytes and v.tag is not None]
+    fnode = lc.ex.cur_fn_stack[-1] if lc.ex.cur_fn_stack else None
+    loops = [n for n in ast.walk(fnode) if isinstance(n, ast.While)] if fnode is not None else []
+    if len(seqs) != 1 or len(loops) != 1:
+        return None
+    tested = {n.id for n in ast.walk(loops[0].test) if isinstance(n, ast.Name)}
+    assigned = {n.id for b in loops[0].body for n in ast.walk(b) if isinstance(n, ast.Name) and isinstance(n.ctx, ast.Store)}
+    cur = [k for k in tested & assigned if isinstance(env.get(k), VInt)]
+    if len(cur) != 1:
+        return None
+    return seqs[0].tag, ops.int_term(env[cur[0]])
+
+
 def xls_loop_inv(lc):
-    data = lc["data"]
-    if not isinstance(data, VSeq) or data.tag is None:
+    v = xls_loop_view(lc)
+    if v is None:
         return z3.BoolVal(False)
-    ole, name = data.tag
-    off = ops.int_term(lc["offset"])
-    # "no FILEPASS among the records at chain positions before `offset`" (so the answer is the one for the rest of the chain)
-    return z3.And(off >= 0, FP(ole, name, z3.IntVal(0)) == FP(ole, name, off),
-                  ops.int_term(lc["data_len"]) == SLEN(ole, name))
+    (ole, name), off = v
+    # "no FILEPASS among the records at chain positions before the cursor" (so the answer is the one for the rest of the chain)
+    return z3.And(off >= 0, FP(ole, name, z3.IntVal(0)) == FP(ole, name, off))
+
+
+def xls_loop_decreases(lc):
+    v = xls_loop_view(lc)
+    if v is None:
+        return z3.IntVal(-1)
+    (ole, name), off = v
+    return SLEN(ole, name) - off
 
 
 def _ft(c, name="file_like"):
@@ -540,8 +567,7 @@ def detector_contracts(reg):
     out.append(FnContract(
         target=f"{ENC}::is_xls_encrypted", params=FL, modifies=("file_like",),
         returns=_spec_or_unknown(spec_xls), raises=lib,
-        loops={0: LoopSpec(inv=xls_loop_inv, label="record-chain",
-                           decreases=lambda lc: ops.int_term(lc["data_len"]) - ops.int_term(lc["offset"]))},
+        loops={0: LoopSpec(inv=xls_loop_inv, label="record-chain", decreases=xls_loop_decreases)},
         note="legacy XLS: FILEPASS (0x002F) somewhere on the BIFF record chain of the Workbook/Book stream"))
     out.append(FnContract(
         target=f"{ZB}::open_zipfile", assumed=True,
@@ -1362,6 +1388,7 @@ ASSUMED_MODELS = [
     "_EpubContext(f).exists / read_xml_root / close (total); Element.findall('.//{xmlenc}EncryptedData') = all such descendants",
     "pypdf.PdfReader(f), .is_encrypted, .decrypt(''), .pages",
     "_DocReader(f) used as a context manager: read() behaves as the verified contract of _DocReader.read on a fresh reader",
+    "close() of container / context handles is total",
     "os.path.basename total on str; _should_skip_file total (C09); open_zipfile (C11); router contracts (C07)",
 ]
 BOUNDED = ["C08/encryption.py::spec/bounded#FP-equals-explicit-chain-up-to-16-bytes: recursive chain predicate = explicit chain o_k for streams < 16 bytes (<= 3 records); "
